@@ -1,5 +1,6 @@
 import PynencModel.Props.C08
-open Pynenc.C08
+import PynencModel.Props.C08Txn
+open Pynenc.C08 Pynenc.C08T
 #print axioms mem_refines_queue
 #print axioms sql_refines_queue
 #print axioms sql_fifo_needs_monotone_clock
@@ -19,3 +20,8 @@ open Pynenc.C08
 #print axioms stmt_unlocked_double_delivery
 #print axioms mem_each_message_once
 #print axioms sql_each_message_once
+#print axioms send_once_or_nothing
+#print axioms retrieve_once_or_nothing
+#print axioms retry_in_transaction_duplicates
+#print axioms retry_in_transaction_copies
+#print axioms code_is_straight_line
